@@ -40,6 +40,131 @@ Proof. intros H ->. discriminate H. Qed.
 Lemma eqb_false_ne a b : String.eqb a b = false -> a <> b.
 Proof. apply String.eqb_neq. Qed.
 
+(* ------------------------------------------------------------------ the newest node of a branch *)
+
+Lemma newest_fold (f : node -> bool) (l : list (N * node)) : forall acc : option (N * node),
+  let res := fold_left (fun (acc : option (N * node)) (x : N * node) =>
+    if f (snd x) then
+      match acc with
+      | Some y => if (fst y <? fst x)%N then Some x else acc
+      | None => Some x
+      end
+    else acc) l acc in
+  (forall x, res = Some x -> (acc = Some x \/ (In x l /\ f (snd x) = true))) /\
+  (forall x, In x l -> f (snd x) = true -> exists y, res = Some y /\ (fst x <= fst y)%N) /\
+  (forall y, acc = Some y -> exists z, res = Some z /\ (fst y <= fst z)%N) /\
+  (acc = None -> (forall x, In x l -> f (snd x) = false) -> res = None).
+Proof.
+  induction l as [|a l IH]; intros acc; simpl.
+  - split; [intros x Hx; left; exact Hx|]. split; [intros x []|].
+    split; [intros y ->; exists y; split; [reflexivity|lia]|]. intros -> _. reflexivity.
+  - destruct (f (snd a)) eqn:Fa.
+    + destruct acc as [y|].
+      * destruct (fst y <? fst a)%N eqn:E.
+        -- apply N.ltb_lt in E. destruct (IH (Some a)) as (A & B & C & D). split; [|split; [|split]].
+           ++ intros x Hx. destruct (A x Hx) as [Ex|[Hin Hf]]; [injection Ex as <-|]; right; auto.
+           ++ intros x [<-|Hin] Hf; [apply (C a eq_refl)|now apply B].
+           ++ intros y' [= <-]. destruct (C a eq_refl) as (z & Ez & Hz). exists z. split; auto. lia.
+           ++ discriminate.
+        -- apply N.ltb_ge in E. destruct (IH (Some y)) as (A & B & C & D). split; [|split; [|split]].
+           ++ intros x Hx. destruct (A x Hx) as [Ex|[Hin Hf]]; [left; exact Ex|right; auto].
+           ++ intros x [<-|Hin] Hf; [|now apply B]. destruct (C y eq_refl) as (z & Ez & Hz). exists z. split; auto. lia.
+           ++ intros y' [= <-]. apply (C y eq_refl).
+           ++ discriminate.
+      * destruct (IH (Some a)) as (A & B & C & D). split; [|split; [|split]].
+        -- intros x Hx. destruct (A x Hx) as [Ex|[Hin Hf]]; [injection Ex as <-|]; right; auto.
+        -- intros x [<-|Hin] Hf; [apply (C a eq_refl)|now apply B].
+        -- discriminate.
+        -- intros _ Hall. rewrite (Hall a (or_introl eq_refl)) in Fa. discriminate.
+    + destruct (IH acc) as (A & B & C & D). split; [|split; [|split]].
+      * intros x Hx. destruct (A x Hx) as [Ex|[Hin Hf]]; [left; exact Ex|right; auto].
+      * intros x [<-|Hin] Hf; [congruence|now apply B].
+      * exact C.
+      * intros -> Hall. apply D; auto.
+Qed.
+
+Lemma newest_some f r v n : newest f r = Some (v, n) ->
+  r_nodes r !! v = Some n /\ f n = true /\ forall w m, r_nodes r !! w = Some m -> f m = true -> (w <= v)%N.
+Proof.
+  unfold newest. intros H. destruct (newest_fold f (nodes_list r) None) as (A & B & _ & _). simpl in A, B.
+  destruct (A _ H) as [E|[Hin Hf]]; [discriminate|].
+  split; [now apply elem_of_map_to_list, elem_of_list_In|]. split; auto.
+  intros w m Hm Fm. destruct (B (w, m)) as (y & Ey & Hy); auto.
+  - now apply elem_of_list_In, elem_of_map_to_list.
+  - rewrite H in Ey. injection Ey as <-. exact Hy.
+Qed.
+
+Lemma newest_exists f r w m : r_nodes r !! w = Some m -> f m = true -> exists v n, newest f r = Some (v, n).
+Proof.
+  intros Hm Fm. unfold newest. destruct (newest_fold f (nodes_list r) None) as (_ & B & _ & _).
+  destruct (B (w, m)) as ([v n] & Ey & _); auto; [now apply elem_of_list_In, elem_of_map_to_list|eauto].
+Qed.
+
+(* the newest node of a branch is what [newest] finds *)
+Lemma newest_branch r v n : r_nodes r !! v = Some n -> branch_newest r v n ->
+  newest (fun m => String.eqb (n_branch m) (n_branch n)) r = Some (v, n).
+Proof.
+  intros Hn Hmax. destruct (newest_exists (fun m => String.eqb (n_branch m) (n_branch n)) r v n Hn (String.eqb_refl _)) as (v' & n' & E).
+  destruct (newest_some _ _ _ _ E) as (Hn' & Fn' & Hmax'). apply String.eqb_eq in Fn'.
+  assert (v' = v).
+  { pose proof (Hmax v' n' Hn' Fn'). pose proof (Hmax' v n Hn (String.eqb_refl _)). lia. }
+  subst v'. rewrite Hn in Hn'. injection Hn' as <-. exact E.
+Qed.
+
+(* ------------------------------------------------------------------ the head cache *)
+
+Lemma prefix_append a b : String.prefix a (a ++ b) = true.
+Proof. induction a as [|c a IH]; simpl; [now destruct b|]. destruct (ascii_dec c c); [exact IH|congruence]. Qed.
+
+Lemma prefix_same_length a b x : String.length a = String.length b -> String.prefix a (b ++ x) = true -> a = b.
+Proof.
+  revert b. induction a as [|c a IH]; intros [|d b] L H; simpl in *; try discriminate; auto.
+  destruct (ascii_dec c d) as [->|]; [|discriminate]. f_equal. apply IH; auto.
+Qed.
+
+(* a key of the freshly cached heads of r is root ++ label of a branch of r, with its newest node *)
+Lemma repo_heads_in r k u : (k, u) ∈ repo_heads r ->
+  exists w x v n, r_nodes r !! w = Some x /\ k = head_key (r_root r) (n_branch x) /\
+                  newest (fun m => String.eqb (n_branch m) (n_branch x)) r = Some (v, n) /\ u = n_uuid n.
+Proof.
+  unfold repo_heads, nodes_list. intros H. apply elem_of_list_In, in_flat_map in H as ([w x] & Hin & H).
+  apply elem_of_list_In, elem_of_map_to_list in Hin. simpl in *.
+  destruct (newest _ r) as [[v n]|] eqn:E; [|destruct H].
+  destruct H as [H|[]]. injection H as <- <-. exists w, x, v, n. auto.
+Qed.
+
+Lemma cache_heads_own s r v n : (forall w m, r_nodes r !! w = Some m -> n_branch m <> s_master_label) ->
+  r_nodes r !! v = Some n -> branch_newest r v n ->
+  st_heads (cache_heads s r) !! head_key (r_root r) (n_branch n) = Some (n_uuid n).
+Proof.
+  intros Hnm Hn Hmax. simpl. apply lookup_union_Some_raw. left.
+  pose proof (newest_branch r v n Hn Hmax) as E.
+  assert (Hin : (head_key (r_root r) (n_branch n), n_uuid n) ∈ repo_heads r).
+  { unfold repo_heads. apply elem_of_list_In, in_flat_map. exists (v, n). split.
+    - now apply elem_of_list_In, elem_of_map_to_list.
+    - simpl. rewrite E. left. reflexivity. }
+  destruct (list_to_map (repo_heads r) !! head_key (r_root r) (n_branch n)) as [u|] eqn:El.
+  - apply elem_of_list_to_map_2 in El.
+    destruct (repo_heads_in r _ _ El) as (w & x & v' & n' & Hx & Ek & En & ->).
+    unfold head_key in Ek. apply append_inj_len in Ek as [_ Ek]; auto.
+    apply branch_label_inj in Ek; [|apply (Hnm v n Hn)|apply (Hnm w x Hx)].
+    rewrite <- Ek in En. rewrite E in En. now injection En as _ <-.
+  - exfalso. apply not_elem_of_list_to_map_2 in El. apply El.
+    apply elem_of_list_fmap. exists (head_key (r_root r) (n_branch n), n_uuid n). split; auto.
+Qed.
+
+(* keys that do not start with the root of r are untouched *)
+Lemma cache_heads_other s r k : String.prefix (r_root r) k = false ->
+  st_heads (cache_heads s r) !! k = st_heads s !! k.
+Proof.
+  intros Hp. simpl. match goal with |- (?m ∪ _) !! _ = _ => destruct (m !! k) as [u|] eqn:El end.
+  - apply elem_of_list_to_map_2 in El. destruct (repo_heads_in r _ _ El) as (w & x & v' & n' & _ & Ek & _).
+    rewrite Ek in Hp. unfold head_key in Hp. now rewrite prefix_append in Hp.
+  - rewrite lookup_union_r by exact El. destruct (st_heads s !! k) as [u|] eqn:E.
+    + now apply map_filter_lookup_Some_2.
+    + now apply map_filter_lookup_None_2; left.
+Qed.
+
 (* ------------------------------------------------------------------ consequences of RepoInv *)
 
 Lemma inv_u2v_node s u v : RepoInv s -> st_u2v s !! u = Some v ->
@@ -139,6 +264,14 @@ Proof. intros H E. specialize (H v). rewrite E in H. inversion H; subst. eauto. 
 Lemma node_same_refl n : node_same n n.
 Proof. repeat split; auto. Qed.
 
+Lemma branch_leaf_same r r' n n' : nodes_same (r_nodes r) (r_nodes r') -> node_same n n' ->
+  branch_leaf r' n' -> branch_leaf r n.
+Proof.
+  intros S (A & B & C & D & E) L c cn Hc Hcn.
+  destruct (nodes_same_fwd _ _ _ _ S Hcn) as (cn' & Hcn' & (A' & B' & C' & D' & E')).
+  rewrite <- D, <- D'. apply (L c cn'); auto. now rewrite C.
+Qed.
+
 Lemma repo_wf_same r r' : repo_wf r -> r_root r' = r_root r -> r_rootv r' = r_rootv r ->
   nodes_same (r_nodes r) (r_nodes r') -> repo_wf r'.
 Proof.
@@ -165,17 +298,13 @@ Proof.
     destruct (nodes_same_bwd _ _ _ _ S H1) as (n1 & Hn1 & (A1 & B1 & C1 & D1 & E1)).
     destruct (nodes_same_bwd _ _ _ _ S H2) as (n2 & Hn2 & (A2 & B2 & C2 & D2 & E2)).
     rewrite C in Hc1, Hc2. apply (wf_linear r W v n c1 c2 n1 n2 Hn Hc1 Hc2 Hn1 Hn2); congruence.
+  - intros v n' Hn' Hb L w m' Hm' Eb.
+    destruct (nodes_same_bwd _ _ _ _ S Hn') as (n & Hn & NS). pose proof NS as (A & B & C & D & E).
+    destruct (nodes_same_bwd _ _ _ _ S Hm') as (m & Hm & (A' & B' & C' & D' & E')).
+    refine (wf_leaf_newest r W v n Hn _ _ w m Hm _); [congruence|eapply branch_leaf_same; eauto|congruence].
   - intros v n' Hn'. destruct (nodes_same_bwd _ _ _ _ S Hn') as (n & Hn & (A & B & C & D & E)).
     rewrite D. apply (wf_no_master r W v n Hn).
   - rewrite ER. apply (wf_root_len r W).
-Qed.
-
-Lemma branch_leaf_same r r' n n' : nodes_same (r_nodes r) (r_nodes r') -> node_same n n' ->
-  branch_leaf r' n' -> branch_leaf r n.
-Proof.
-  intros S (A & B & C & D & E) L c cn Hc Hcn.
-  destruct (nodes_same_fwd _ _ _ _ S Hcn) as (cn' & Hcn' & (A' & B' & C' & D' & E')).
-  rewrite <- D, <- D'. apply (L c cn'); auto. now rewrite C.
 Qed.
 
 (* a state that differs from s in the nodes' attributes of repo i only (and perhaps in the
@@ -217,13 +346,24 @@ Proof.
     + apply (inv_next_r s I i r Hr).
     + apply (inv_next_r s I j rj Hrj').
   - rewrite E4. apply (inv_nil s I).
-  - intros j R rj v n HR Hrj Hn Hb L. rewrite E3 in HR. rewrite E6.
+  - intros j R rj v n HR Hrj Hn Hmax. rewrite E3 in HR. rewrite E6.
     destruct (Hlk j rj Hrj) as [[-> ->]|[Ne Hrj']].
     + destruct (nodes_same_bwd _ _ _ _ S Hn) as (n0 & Hn0 & NS).
       pose proof NS as (A & B & C & D & E). rewrite ER, A, D.
-      apply (inv_heads s I i R r v n0 HR Hr Hn0); [congruence|].
-      eapply branch_leaf_same; eauto.
-    + apply (inv_heads s I j R rj v n HR Hrj' Hn Hb L).
+      apply (inv_head_newest s I i R r v n0 HR Hr Hn0).
+      intros w m Hm Eb. destruct (nodes_same_fwd _ _ _ _ S Hm) as (m' & Hm' & (_ & _ & _ & D' & _)).
+      apply (Hmax w m' Hm'). congruence.
+    + apply (inv_head_newest s I j R rj v n HR Hrj' Hn Hmax).
+Qed.
+
+(* the earlier reading of the head cache: it points at the one leaf of every named branch *)
+Lemma inv_heads s i R r v n : RepoInv s -> st_roots s !! i = Some R -> st_repos s !! i = Some r ->
+  r_nodes r !! v = Some n -> n_branch n <> "" -> branch_leaf r n ->
+  st_heads s !! head_key (r_root r) (n_branch n) = Some (n_uuid n).
+Proof.
+  intros I HR Hr Hn Hb L. apply (inv_head_newest s I i R r v n HR Hr Hn).
+  destruct (inv_live s I i R HR) as (r' & Hr' & _ & W). rewrite Hr in Hr'. injection Hr' as <-.
+  now apply (wf_leaf_newest r W v n Hn Hb L).
 Qed.
 
 Lemma alter_as_insert {A} (f : A -> A) (m : gmap N A) i x : m !! i = Some x -> alter f i m = <[i := f x]> m.
@@ -317,7 +457,7 @@ Lemma inv_add_node s s' i R r r' cu child :
   r_nodes r' !! st_next_v s = Some child -> n_uuid child = cu ->
   uuids_kept (st_next_v s) (r_nodes r) (r_nodes r') ->
   (forall j Rj rj v n, st_roots s' !! j = Some Rj -> st_repos s' !! j = Some rj ->
-      r_nodes rj !! v = Some n -> n_branch n <> "" -> branch_leaf rj n ->
+      r_nodes rj !! v = Some n -> branch_newest rj v n ->
       st_heads s' !! head_key (r_root rj) (n_branch n) = Some (n_uuid n)) ->
   RepoInv s'.
 Proof.
@@ -387,6 +527,7 @@ Hypothesis Hlocked : n_locked n = true.
 Hypothesis Hlt : forall w x, r_nodes r !! w = Some x -> (w < cv)%N.
 Hypothesis Hsis : forall c cn, c ∈ n_children n -> r_nodes r !! c = Some cn -> n_branch cn <> b.
 Hypothesis Hbm : b <> s_master_label.
+Hypothesis Hcase : b = n_branch n \/ forall w x, r_nodes r !! w = Some x -> n_branch x <> b.
 
 Let child := mkNode cu [v] [] b false.
 Let nodes' := <[cv := child]> (alter (add_child cv) v (r_nodes r)).
@@ -498,6 +639,30 @@ Proof.
         { destruct (wf_children r W v n c2 Hn Hc2) as (cn & Hcn & _). now apply nv_child_not_old in Hcn. }
         destruct (Hback c2 n2 H2 N2) as (m2 & A2 & B2 & C2). exfalso. apply (Hsis c2 m2 Hc2 A2). congruence.
       * apply elem_of_list_singleton in Hc1 as ->. apply elem_of_list_singleton in Hc2 as ->. reflexivity.
+  - intros w x Hx Hb L. unfold branch_newest. simpl. fold nodes'. intros w' m Hm Eb.
+    destruct (decide (w = cv)) as [->|Ne].
+    + destruct (decide (w' = cv)) as [->|Ne']; [lia|].
+      destruct (nv_old w' m Hm Ne') as (m0 & H0 & _). pose proof (Hlt _ _ H0). lia.
+    + destruct (nv_old w x Hx Ne) as (x0 & H0 & _ & _ & EB & _ & Hch).
+      assert (L0 : branch_leaf r x0).
+      { intros c cn Hc Hcn. destruct (nv_fwd c cn Hcn) as (cn' & Hcn' & _ & _ & EB' & _).
+        rewrite <- EB, <- EB'. apply (L c cn'); auto.
+        destruct Hch as [[_ ->]|(_ & _ & ->)]; auto. apply elem_of_app. auto. }
+      destruct (decide (w' = cv)) as [->|Ne'].
+      * rewrite nv_child in Hm. injection Hm as <-. simpl in Eb. exfalso.
+        destruct Hch as [[Nv ->]|(-> & -> & Ech)].
+        -- destruct Hcase as [Eq|Hnone]; [|apply (Hnone w x0 H0); congruence].
+           assert (Ln : branch_leaf r n) by (intros c cn Hc Hcn; rewrite <- Eq; now apply (Hsis c cn)).
+           assert (Hbn : n_branch n <> "") by congruence.
+           assert (E1 : n_branch x0 = n_branch n) by congruence.
+           pose proof (wf_leaf_newest r W v n Hn Hbn Ln w x0 H0 E1) as Le1.
+           assert (Hbx : n_branch x0 <> "") by congruence.
+           pose proof (wf_leaf_newest r W w x0 H0 Hbx L0 v n Hn (eq_sym E1)) as Le2.
+           apply Nv. lia.
+        -- apply (L cv child); [rewrite Ech; apply elem_of_app; right; now apply elem_of_list_singleton|apply nv_child|].
+           simpl. congruence.
+      * destruct (nv_old w' m Hm Ne') as (m0 & Hm0 & _ & _ & EBm & _).
+        refine (wf_leaf_newest r W w x0 H0 _ L0 w' m0 Hm0 _); congruence.
   - intros w x Hx. destruct (decide (w = cv)) as [->|Ne].
     + rewrite nv_child in Hx. injection Hx as <-. exact Hbm.
     + destruct (nv_old w x Hx Ne) as (x0 & H0 & _ & _ & C & _). rewrite C. apply (wf_no_master r W w x0 H0).
@@ -530,6 +695,49 @@ Proof.
   apply elem_of_cons in Hx as [->|Hx]; auto.
 Qed.
 
+(* ------------------------------------------------------------------ refreshing the head cache *)
+
+Lemma recache_hit s i r : st_repos s !! i = Some r -> recache s i = cache_heads s r.
+Proof. unfold recache. now intros ->. Qed.
+
+Lemma recache_u2v s i : st_u2v (recache s i) = st_u2v s.
+Proof. unfold recache. destruct (st_repos s !! i); reflexivity. Qed.
+Lemma recache_v2u s i : st_v2u (recache s i) = st_v2u s.
+Proof. unfold recache. destruct (st_repos s !! i); reflexivity. Qed.
+Lemma recache_repos s i : st_repos (recache s i) = st_repos s.
+Proof. unfold recache. destruct (st_repos s !! i); reflexivity. Qed.
+Lemma recache_repo_of s i : st_repo_of (recache s i) = st_repo_of s.
+Proof. unfold recache. destruct (st_repos s !! i); reflexivity. Qed.
+Lemma recache_roots s i : st_roots (recache s i) = st_roots s.
+Proof. unfold recache. destruct (st_repos s !! i); reflexivity. Qed.
+Lemma recache_next_v s i : st_next_v (recache s i) = st_next_v s.
+Proof. unfold recache. destruct (st_repos s !! i); reflexivity. Qed.
+
+(* after the DAG of repo i changed into r' and its heads were cached again, the cache is right for
+   every repo *)
+Lemma heads_after_recache s s3 i R r r' :
+  RepoInv s -> st_roots s !! i = Some R -> st_repos s !! i = Some r ->
+  st_repos s3 = <[i := r']> (st_repos s) -> st_roots s3 = st_roots s -> st_heads s3 = st_heads s ->
+  r_root r' = r_root r -> repo_wf r' ->
+  forall j Rj rj v n, st_roots s3 !! j = Some Rj -> st_repos s3 !! j = Some rj ->
+    r_nodes rj !! v = Some n -> branch_newest rj v n ->
+    st_heads (cache_heads s3 r') !! head_key (r_root rj) (n_branch n) = Some (n_uuid n).
+Proof.
+  intros I HR Hr E1 E3 E6 ER W' j Rj rj v n HRj Hrj Hn Hmax.
+  rewrite E3 in HRj. rewrite E1 in Hrj. destruct (decide (j = i)) as [->|Nj].
+  - rewrite lookup_insert in Hrj. injection Hrj as <-.
+    apply (cache_heads_own s3 r' v n); auto. intros w m Hm. apply (wf_no_master r' W' w m Hm).
+  - rewrite lookup_insert_ne in Hrj by auto.
+    destruct (inv_root_eq s i R r I HR Hr) as [ERr W]. destruct (inv_root_eq s j Rj rj I HRj Hrj) as [ERj Wj].
+    rewrite cache_heads_other.
+    + rewrite E6. apply (inv_head_newest s I j Rj rj v n HRj Hrj Hn Hmax).
+    + destruct (String.prefix (r_root r') (head_key (r_root rj) (n_branch n))) eqn:Hp; auto.
+      exfalso. apply Nj. apply (inv_roots_inj s j i Rj I HRj). rewrite <- ERj.
+      unfold head_key in Hp. apply prefix_same_length in Hp.
+      * congruence.
+      * rewrite ER. rewrite (wf_root_len r W), (wf_root_len rj Wj). reflexivity.
+Qed.
+
 (* ------------------------------------------------------------------ newVersion: the state *)
 
 Lemma inv_new_version_core s i R r v n cu b :
@@ -537,8 +745,8 @@ Lemma inv_new_version_core s i R r v n cu b :
   n_locked n = true -> st_u2v s !! cu = None -> cu <> "" -> b <> s_master_label ->
   (forall c cn, c ∈ n_children n -> r_nodes r !! c = Some cn -> n_branch cn <> b) ->
   (b = n_branch n \/ forall w x, r_nodes r !! w = Some x -> n_branch x <> b) ->
-  RepoInv (upd_repo (set_repo_of (set_head (fst (new_uuid s cu)) (head_key (r_root r) b) cu) cu i) i
-             (upd_nodes (fun m => <[st_next_v s := mkNode cu [v] [] b false]> (alter (add_child (st_next_v s)) v m)))).
+  RepoInv (recache (upd_repo (set_repo_of (fst (new_uuid s cu)) cu i) i
+             (upd_nodes (fun m => <[st_next_v s := mkNode cu [v] [] b false]> (alter (add_child (st_next_v s)) v m)))) i).
 Proof.
   intros I HR Hr Hn Hlk Hcu Hne Hbm Hsis Hcase.
   destruct (inv_root_eq s i R r I HR Hr) as [ER W].
@@ -546,54 +754,17 @@ Proof.
   set (r' := upd_nodes (fun m => <[cv := child]> (alter (add_child cv) v m)) r).
   assert (Hlt : forall w x, r_nodes r !! w = Some x -> (w < cv)%N).
   { intros w x Hx. destruct (inv_nodes s I i R r w x HR Hr Hx) as [Hv _]. apply (inv_next_v s I w _ Hv). }
-  pose proof (wf_new_version r v cv n cu b W Hn Hlk Hlt Hsis Hbm) as W'. fold child in W'. fold r' in W'.
+  pose proof (wf_new_version r v cv n cu b W Hn Hlk Hlt Hsis Hbm Hcase) as W'. fold child in W'. fold r' in W'.
+  set (s3 := upd_repo (set_repo_of (fst (new_uuid s cu)) cu i) i
+               (upd_nodes (fun m => <[cv := child]> (alter (add_child cv) v m)))).
+  assert (E1 : st_repos s3 = <[i := r']> (st_repos s)) by (simpl; now apply alter_as_insert).
+  assert (H3 : st_repos s3 !! i = Some r') by (rewrite E1; apply lookup_insert).
+  rewrite (recache_hit s3 i r' H3).
   eapply (inv_add_node s _ i R r r' cu child); eauto; simpl; fold cv.
-  - now apply alter_as_insert.
   - unfold r'. simpl. now rewrite lookup_insert.
   - apply (nv_uuids_kept r v cv n cu b Hn Hlt).
-  - (* the head cache *)
-    intros j Rj rj w x HRj Hrj Hx Hb L.
-    assert (Hrj' : (j = i /\ rj = r') \/ (j <> i /\ st_repos s !! j = Some rj)).
-    { revert Hrj. destruct (decide (j = i)) as [->|Nj].
-      - rewrite lookup_alter, Hr. simpl. intros [= <-]. auto.
-      - rewrite lookup_alter_ne by auto. auto. }
-    destruct Hrj' as [[-> ->]|[Nj Hrj']].
-    + change (r_root r') with (r_root r). change (r_nodes r') with (<[cv := child]> (alter (add_child cv) v (r_nodes r))) in Hx.
-      destruct (decide (w = cv)) as [->|Nw].
-      * rewrite lookup_insert in Hx. injection Hx as <-. simpl. now rewrite lookup_insert.
-      * destruct (nv_old r v cv n cu b Hn Hlt w x Hx Nw) as (x0 & H0 & EU & EP & EB & EL & Hch).
-        (* x0 is a leaf of its branch in the old repo *)
-        assert (L0 : branch_leaf r x0).
-        { intros c cn Hc Hcn. destruct (nv_fwd r v cv n cu b Hn Hlt c cn Hcn) as (cn' & Hcn' & _ & _ & EB' & _).
-          rewrite <- EB, <- EB'. apply (L c cn'); auto.
-          destruct Hch as [[_ ->]|(_ & _ & ->)]; auto. apply elem_of_app. auto. }
-        assert (Hb0 : n_branch x0 <> "") by congruence.
-        pose proof (inv_heads s I i R r w x0 HR Hr H0 Hb0 L0) as Hold.
-        assert (Nb : n_branch x <> b).
-        { intros Eb. destruct Hch as [[Nv ->]|(-> & -> & Ech)].
-          - destruct Hcase as [->|Hnone]; [|now apply (Hnone w x0 H0)].
-            (* the parent is the leaf of that branch: two leaves would share the head entry *)
-            assert (Ln : branch_leaf r n) by (intros c cn Hc Hcn; now apply (Hsis c cn)).
-            assert (Hbn : n_branch n <> "") by congruence.
-            pose proof (inv_heads s I i R r v n HR Hr Hn Hbn Ln) as Hold'.
-            rewrite Eb in Hold. rewrite Hold' in Hold. injection Hold as Eu.
-            pose proof (inv_node_u2v s i R r v n I HR Hr Hn) as U1.
-            pose proof (inv_node_u2v s i R r w x0 I HR Hr H0) as U2.
-            rewrite Eu, U2 in U1. injection U1 as ->. now apply Nv.
-          - (* the parent itself: its new child carries b, so it is no leaf of b *)
-            apply (L cv child); [rewrite Ech; apply elem_of_app; right; now apply elem_of_list_singleton| |].
-            + simpl. now rewrite lookup_insert.
-            + simpl. congruence. }
-        rewrite lookup_insert_ne.
-        -- rewrite EU, EB. exact Hold.
-        -- intros Ek. assert (Hxm : n_branch x <> s_master_label) by (rewrite EB; apply (wf_no_master r W w x0 H0)).
-           destruct (head_key_inj _ _ _ _ (wf_root_len r W) (wf_root_len r W) Hbm Hxm Ek) as [_ Ek']. congruence.
-    + (* another repo: its keys start with another root *)
-      destruct (inv_root_eq s j Rj rj I HRj Hrj') as [ERj Wj].
-      rewrite lookup_insert_ne; [apply (inv_heads s I j Rj rj w x HRj Hrj' Hx Hb L)|].
-      intros Ek. pose proof (wf_no_master rj Wj w x Hx) as Hxm.
-      destruct (head_key_inj _ _ _ _ (wf_root_len r W) (wf_root_len rj Wj) Hbm Hxm Ek) as [Ek' _].
-      apply Nj. apply (inv_roots_inj s j i Rj I HRj). congruence.
+  - intros j Rj rj w x HRj Hrj Hx Hmax.
+    apply (heads_after_recache s s3 i R r r' I HR Hr E1 eq_refl eq_refl eq_refl W' j Rj rj w x HRj Hrj Hx Hmax).
 Qed.
 
 Lemma inv_new_version s parent bname assign fresh :
@@ -777,6 +948,17 @@ Proof using All.
     { intros c Hc Nc. destruct Hch as [[_ ->]|[_ Ec]]; auto. rewrite Ec in Hc.
       apply elem_of_app in Hc as [Hc|Hc]; auto. apply elem_of_list_singleton in Hc. contradiction. }
     apply (wf_linear r W w x0 c1 c2 m1 m2 H0); auto; congruence.
+  - intros w x Hx Hb L. unfold branch_newest. simpl. fold nodes'. intros w' m Hm Eb.
+    destruct (decide (w = cv)) as [->|Ne].
+    { rewrite mg_child in Hx. injection Hx as <-. simpl in Hb. contradiction. }
+    destruct (mg_old w x Hx Ne) as (x0 & H0 & _ & _ & EB & _ & Hch).
+    destruct (decide (w' = cv)) as [->|Ne'].
+    { rewrite mg_child in Hm. injection Hm as <-. simpl in Eb. congruence. }
+    destruct (mg_old w' m Hm Ne') as (m0 & Hm0 & _ & _ & EBm & _).
+    refine (wf_leaf_newest r W w x0 H0 _ _ w' m0 Hm0 _); [congruence| |congruence].
+    intros c cn Hc Hcn. destruct (mg_fwd c cn Hcn) as (cn' & Hcn' & _ & _ & EB' & _).
+    rewrite <- EB, <- EB'. apply (L c cn'); auto.
+    destruct Hch as [[_ ->]|[_ ->]]; auto. apply elem_of_app. auto.
   - intros w x Hx. destruct (decide (w = cv)) as [->|Ne].
     + rewrite mg_child in Hx. injection Hx as <-. simpl. discriminate.
     + destruct (mg_old w x Hx Ne) as (x0 & H0 & _ & _ & C & _). rewrite C. apply (wf_no_master r W w x0 H0).
@@ -832,26 +1014,14 @@ Proof.
   pose proof (mg_old r cv vs fresh W Hlt Hvs End Hl2) as MO.
   pose proof (mg_fwd r cv vs fresh W Hlt Hvs End Hl2) as MF.
   fold child in MC, MO, MF. fold child in W'. fold r' in W'.
+  set (s3 := upd_repo (set_repo_of _ fresh i) i _).
+  assert (E1 : st_repos s3 = <[i := r']> (st_repos s)) by (simpl; now apply alter_as_insert).
+  assert (H3 : st_repos s3 !! i = Some r') by (rewrite E1; apply lookup_insert).
+  rewrite (recache_hit s3 i r' H3).
   eapply (inv_add_node s _ i R r r' fresh child); eauto; simpl; fold cv.
-  - now apply alter_as_insert.
   - apply (mg_uuids_kept r cv vs fresh W Hlt Hvs End Hl2).
-  - intros j Rj rj w x HRj Hrj Hx Hb L.
-    assert (Hrj' : (j = i /\ rj = r') \/ (j <> i /\ st_repos s !! j = Some rj)).
-    { revert Hrj. destruct (decide (j = i)) as [->|Nj].
-      - rewrite lookup_alter, Hr. simpl. intros [= <-]. auto.
-      - rewrite lookup_alter_ne by auto. auto. }
-    destruct Hrj' as [[-> ->]|[Nj Hrj']].
-    + change (r_root r') with (r_root r).
-      change (r_nodes r') with (link_children cv vs (<[cv := child]> (r_nodes r))) in Hx.
-      destruct (decide (w = cv)) as [Ew|Nw].
-      * rewrite Ew in Hx. rewrite MC in Hx. injection Hx as <-. simpl in Hb. contradiction.
-      * destruct (MO w x Hx Nw) as (x0 & H0 & EU & EP & EB & EL & Hch).
-        rewrite EU, EB. apply (inv_heads s I i R r w x0 HR Hr H0); [congruence|].
-        intros c cn Hc Hcn.
-        destruct (MF c cn Hcn) as (cn' & Hcn' & _ & _ & EB' & _).
-        rewrite <- EB, <- EB'. apply (L c cn'); auto.
-        destruct Hch as [[_ ->]|[_ ->]]; auto. apply elem_of_app. auto.
-    + apply (inv_heads s I j Rj rj w x HRj Hrj' Hx Hb L).
+  - intros j Rj rj w x HRj Hrj Hx Hmax.
+    apply (heads_after_recache s s3 i R r r' I HR Hr E1 eq_refl eq_refl eq_refl W' j Rj rj w x HRj Hrj Hx Hmax).
 Qed.
 
 Lemma merge_frame s ps fresh :
@@ -884,6 +1054,7 @@ Proof.
   - intros w n H. apply lookup_singleton_Some in H as [_ <-]. simpl. split; apply NoDup_nil_2.
   - intros w n H Hb. apply lookup_singleton_Some in H as [_ <-]. simpl in Hb. contradiction.
   - intros w n c1 c2 n1 n2 H Hc. apply lookup_singleton_Some in H as [_ <-]. inversion Hc.
+  - intros w n H Hb. apply lookup_singleton_Some in H as [_ <-]. simpl in Hb. contradiction.
   - intros w n H. apply lookup_singleton_Some in H as [_ <-]. simpl. discriminate.
   - now apply valid_uuid_len.
 Qed.
@@ -947,15 +1118,17 @@ Proof.
   - intros j rj H. apply lookup_insert_Some in H as [[<- <-]|[Nj H]]; [fold id; lia|].
     apply (inv_next_r s I) in H. fold id in H |- *. lia.
   - rewrite lookup_insert_ne by auto. apply (inv_nil s I).
-  - intros j Rj rj w n HRj Hrj Hn Hb L.
+  - intros j Rj rj w n HRj Hrj Hn Hmax.
     apply lookup_insert_Some in HRj as [[<- <-]|[Nj HRj]].
-    + rewrite lookup_insert in Hrj. injection Hrj as <-. simpl in Hn.
-      apply lookup_singleton_Some in Hn as [_ <-]. simpl in Hb. contradiction.
+    + rewrite lookup_insert in Hrj. injection Hrj as <-.
+      apply (cache_heads_own s r w n); auto.
+      intros w' m Hm. simpl in Hm. apply lookup_singleton_Some in Hm as [_ <-]. discriminate.
     + rewrite lookup_insert_ne in Hrj by auto.
       destruct (inv_root_eq s j Rj rj I HRj Hrj) as [ERj Wj].
-      rewrite lookup_insert_ne; [apply (inv_heads s I j Rj rj w n HRj Hrj Hn Hb L)|].
-      intros Ek. assert (Hm : "" <> s_master_label) by discriminate.
-      destruct (head_key_inj _ _ _ _ (valid_uuid_len u Hval) (wf_root_len rj Wj) Hm (wf_no_master rj Wj w n Hn) Ek) as [Eu _].
+      etransitivity; [apply (cache_heads_other s r)|apply (inv_head_newest s I j Rj rj w n HRj Hrj Hn Hmax)].
+      simpl. destruct (String.prefix u (head_key (r_root rj) (n_branch n))) eqn:Hp; auto. exfalso.
+      unfold head_key in Hp. apply prefix_same_length in Hp;
+        [|rewrite (valid_uuid_len u Hval), (wf_root_len rj Wj); reflexivity].
       destruct (wf_root rj Wj) as (n0 & Hn0 & Un0 & _).
       destruct (Hold j Rj rj _ n0 HRj Hrj Hn0) as (_ & _ & Nu). congruence.
 Qed.
@@ -1106,8 +1279,8 @@ Proof.
   - intros j rj H. rewrite E1 in H. rewrite E5. apply (inv_next_r s I j rj H).
   - destruct (st_u2v s2 !! "") as [y|] eqn:E0; auto. apply Hu in E0 as [E0 _].
     rewrite (inv_nil s I) in E0. discriminate.
-  - intros j Rj rj w n HRj Hrj Hn Hb L. rewrite E2 in HRj. apply lookup_delete_Some in HRj as [Nj HRj].
-    rewrite E1 in Hrj. rewrite E3. apply (inv_heads s I j Rj rj w n HRj Hrj Hn Hb L).
+  - intros j Rj rj w n HRj Hrj Hn Hmax. rewrite E2 in HRj. apply lookup_delete_Some in HRj as [Nj HRj].
+    rewrite E1 in Hrj. rewrite E3. apply (inv_head_newest s I j Rj rj w n HRj Hrj Hn Hmax).
 Qed.
 
 Lemma delete_repo_frame s u pass : RepoInv s ->
@@ -1243,7 +1416,7 @@ Proof.
   destruct (negb (n_locked n)); auto.
   match goal with |- context [match ?o with Some _ => _ | None => (s, Fail) end] => destruct o end; auto.
   destruct (fx_assign_check fx && assign_refused s a); auto.
-  unfold new_uuid. simpl. now rewrite lookup_insert_ne by auto.
+  unfold new_uuid. simpl. rewrite recache_u2v. simpl. now rewrite lookup_insert_ne by auto.
 Qed.
 
 Lemma commit_u2v s u : st_u2v (fst (do_commit s u)) = st_u2v s.
@@ -1454,7 +1627,7 @@ Proof.
   unfold new_uuid. simpl.
   apply find_node_spec in F as (Hu & Hj & Hr & Hn).
   destruct NS as (rp & vp & np & H1 & H2 & H3 & H4 & H5).
-  unfold node_state. simpl.
+  unfold node_state. rewrite recache_u2v, recache_repo_of, recache_repos. simpl.
   set (cv := st_next_v s).
   assert (Nvp : vp <> cv).
   { destruct (inv_repo_of s I p i H2) as (R & r0 & v0 & n0 & HR & Hr0 & Hu0 & Hn0).
@@ -1485,7 +1658,7 @@ Proof.
   destruct (fx_assign_check fx && assign_refused s None); [discriminate|].
   unfold new_uuid. simpl. intros [= <-]. split; auto.
   apply find_node_spec in F as (Hu & Hj & Hr & Hn). rewrite Hi in Hj. injection Hj as <-.
-  unfold node_state. simpl.
+  unfold node_state. rewrite recache_u2v, recache_repo_of, recache_repos. simpl.
   eexists _, (st_next_v s), _. rewrite !lookup_insert. rewrite lookup_alter, Hr. simpl.
   split; [reflexivity|]. split; [reflexivity|]. split; [reflexivity|]. simpl.
   rewrite lookup_insert. auto.
@@ -1499,7 +1672,7 @@ Proof.
   match goal with |- context [match ?o with Some _ => _ | None => (s, Fail) end] => destruct o as [b'|] end; auto.
   destruct (fx_assign_check fx && assign_refused s None); auto.
   unfold new_uuid. simpl. apply find_node_spec in F as (Hu & Hj & Hr & Hn).
-  unfold data_of, repo_by_uuid. simpl. rewrite lookup_insert_ne by auto.
+  unfold data_of, repo_by_uuid. rewrite recache_repo_of, recache_repos. simpl. rewrite lookup_insert_ne by auto.
   destruct (st_repo_of s !! x) as [k|]; auto.
   destruct (decide (k = j)) as [->|Nk].
   - rewrite lookup_alter, Hr. reflexivity.
@@ -1880,9 +2053,9 @@ Lemma inv_one_head s i R r v w n m : RepoInv s ->
   n_branch n <> "" -> n_branch m = n_branch n -> branch_leaf r n -> branch_leaf r m -> v = w.
 Proof.
   intros I HR Hr Hn Hm Hb Eb Ln Lm.
-  pose proof (inv_heads s I i R r v n HR Hr Hn Hb Ln) as H1.
+  pose proof (inv_heads s i R r v n I HR Hr Hn Hb Ln) as H1.
   assert (Hb' : n_branch m <> "") by congruence.
-  pose proof (inv_heads s I i R r w m HR Hr Hm Hb' Lm) as H2.
+  pose proof (inv_heads s i R r w m I HR Hr Hm Hb' Lm) as H2.
   rewrite Eb, H1 in H2. injection H2 as E.
   now destruct (inv_uuid_unique s i i R R r r v w n m I HR Hr Hn HR Hr Hm E).
 Qed.
@@ -1920,7 +2093,7 @@ Definition frame_violated (fx : fixes) (rs : list req) (r : req) : Prop :=
   is_done (snd (step fx (run fx init rs) r)) = false /\
   frame (fst (step fx (run fx init rs) r)) <> frame (run fx init rs).
 
-Definition U (s : string) : uref := mkUref s 0.
+Definition U (s : string) : string := s.
 Definition u1 := "00000000000000000000000000000001".
 Definition u2 := "00000000000000000000000000000002".
 Definition u3 := "00000000000000000000000000000003".
@@ -2006,11 +2179,12 @@ Proof.
   vm_compute in H. discriminate.
 Qed.
 
-(* 5. roots "xa" and "xab": branch "bmaster" of the first repo overwrites master's head of the second *)
+(* 5. roots "xa" and "xab": caching the heads of the first repo drops every key that starts with "xa",
+      the second repo's included, and its branch "bmaster" is cached under the key of the second
+      repo's master *)
 Definition collide : list req :=
   [RNewRepo (Some "xa") "" u1; RCommit (U "xa"); RNewVersion (U "xa") "" u2;
-   RNewRepo (Some "xab") "" u3; RCommit (U u2); RBranch (U u2) "bmaster" "" u4;
-   RCommit (U "xab"); RBranch (U "xab") "c" "" u5].
+   RNewRepo (Some "xab") "" u3; RCommit (U u2); RBranch (U u2) "bmaster" "" u4].
 Lemma head_key_collision_refuted :
   oracles_ok only_root_unvalidated init collide /\
   matching (run only_root_unvalidated init collide) (U "xab:master") = Done u4 /\
@@ -2038,8 +2212,8 @@ Lemma repaired_refuses_witnesses :
 Proof. vm_compute. auto. Qed.
 
 (* ------------------------------------------------------------------ the fuel is enough *)
-(* the ancestry walk visits strictly increasing (descend) or decreasing (ascend) version ids of one
-   repo: it cannot take more steps than the repo has nodes *)
+(* the ancestry walk visits strictly decreasing version ids of one repo: it cannot take more steps
+   than the repo has nodes *)
 
 Lemma path_bound (m : gmap N node) (acc : list N) :
   NoDup acc -> (forall x, x ∈ acc -> is_Some (m !! x)) -> (length acc <= size m)%nat.
@@ -2067,32 +2241,6 @@ Section Fuel.
 Variable r : repo.
 Hypothesis W : repo_wf r.
 
-Lemma descend_no_hang bname : forall fuel acc v n,
-  r_nodes r !! v = Some n -> NoDup acc -> (forall x, x ∈ acc -> (x < v)%N /\ is_Some (r_nodes r !! x)) ->
-  (size (r_nodes r) < fuel + length acc)%nat ->
-  descend fuel (r_nodes r) bname n <> Hang.
-Proof.
-  induction fuel as [|fuel IH]; intros acc v n Hn ND Hacc Hf.
-  - exfalso. assert (length acc <= size (r_nodes r))%nat by (apply path_bound; auto; intros x Hx; now apply Hacc).
-    simpl in Hf. lia.
-  - simpl. destruct (lookup_all (r_nodes r) (n_children n)) as [cs|] eqn:Ecs; [|discriminate].
-    destruct (List.filter _ cs) as [|c [|c' rest]] eqn:Ef; try discriminate.
-    assert (Hc : c ∈ cs).
-    { assert (Hin : In c (List.filter (fun c0 => String.eqb (n_branch c0) bname) cs)) by (rewrite Ef; left; auto).
-      apply filter_In in Hin as [Hin _]. now apply elem_of_list_In. }
-    destruct (lookup_all_spec _ _ _ Ecs c Hc) as (vc & Hvc & Hmc).
-    destruct (wf_children r W v n vc Hn Hvc) as (cn & Hcn & Hpar).
-    rewrite Hmc in Hcn. injection Hcn as <-.
-    destruct (wf_parents r W vc c v Hmc Hpar) as [Lt _].
-    apply (IH (acc ++ [v])%list vc c Hmc).
-    + apply NoDup_app. repeat split; auto; [|apply NoDup_singleton].
-      intros x Hx Hx'. apply elem_of_list_singleton in Hx' as ->. destruct (Hacc v Hx). lia.
-    + intros x Hx. apply elem_of_app in Hx as [Hx|Hx].
-      * destruct (Hacc x Hx). split; auto. lia.
-      * apply elem_of_list_singleton in Hx as ->. split; eauto.
-    + rewrite app_length. simpl. lia.
-Qed.
-
 Lemma ascend_no_hang : forall fuel acc v n,
   r_nodes r !! v = Some n -> NoDup acc -> (forall x, x ∈ acc -> (v < x)%N /\ is_Some (r_nodes r !! x)) ->
   (size (r_nodes r) < fuel + length acc)%nat ->
@@ -2118,34 +2266,11 @@ Proof.
     destruct (ascend fuel (r_nodes r) lastp); simpl; try discriminate. congruence.
 Qed.
 
-Lemma descend_in bname : forall fuel v n leaf, r_nodes r !! v = Some n ->
-  descend fuel (r_nodes r) bname n = Done leaf -> exists vl, r_nodes r !! vl = Some leaf.
+Lemma ancestry_no_hang name : ancestry r name <> Hang.
 Proof.
-  induction fuel as [|fuel IH]; intros v n leaf Hn Ed; simpl in Ed; [discriminate|].
-  destruct (lookup_all (r_nodes r) (n_children n)) as [cs|] eqn:Ecs; [|discriminate].
-  destruct (List.filter _ cs) as [|c [|c' rest]] eqn:Ef; try discriminate.
-  - injection Ed as <-. eauto.
-  - assert (Hc : c ∈ cs).
-    { assert (Hin : In c (List.filter (fun c0 => String.eqb (n_branch c0) bname) cs)) by (rewrite Ef; left; auto).
-      apply filter_In in Hin as [Hin _]. now apply elem_of_list_In. }
-    destruct (lookup_all_spec _ _ _ Ecs c Hc) as (vc & _ & Hmc). apply (IH vc c leaf Hmc Ed).
-Qed.
-
-Lemma ancestry_no_hang pick name : ancestry pick r name <> Hang.
-Proof.
-  unfold ancestry. destruct (nth_error _ _) as [n0|] eqn:En; [|discriminate].
-  assert (Hin : exists v0, r_nodes r !! v0 = Some n0).
-  { apply nth_error_In in En. unfold ancestry_starts in En. apply in_map_iff in En as ([v0 n] & <- & Hin).
-    apply filter_In in Hin as [Hin _]. exists v0. now apply elem_of_map_to_list, elem_of_list_In. }
-  destruct Hin as [v0 Hv0]. unfold ancestry_from.
-  assert (D : descend (S (size (r_nodes r))) (r_nodes r) (n_branch n0) n0 <> Hang).
-  { apply (descend_no_hang (n_branch n0) (S (size (r_nodes r))) [] v0 n0 Hv0 (NoDup_nil_2)).
-    - intros x Hx. inversion Hx.
-    - simpl. lia. }
-  destruct (descend (S (size (r_nodes r))) (r_nodes r) (n_branch n0) n0) as [leaf| | |] eqn:Ed;
-    simpl; try discriminate; [|congruence].
-  destruct (descend_in _ _ _ _ _ Hv0 Ed) as [vl Hvl].
-  apply (ascend_no_hang (S (size (r_nodes r))) [] vl leaf Hvl (NoDup_nil_2)).
+  unfold ancestry. destruct (newest _ r) as [[v0 n0]|] eqn:En; [|discriminate].
+  destruct (newest_some _ _ _ _ En) as (Hv0 & _ & _).
+  apply (ascend_no_hang (S (size (r_nodes r))) [] v0 n0 Hv0 (NoDup_nil_2)).
   - intros x Hx. inversion Hx.
   - simpl. lia.
 Qed.
@@ -2174,7 +2299,7 @@ Proof.
   now destruct (inv_root_eq s i R r' I HR Hr).
 Qed.
 
-Lemma gbv_no_hang pick s u name : RepoInv s -> get_branch_version pick s u name <> Hang.
+Lemma gbv_no_hang s u name : RepoInv s -> get_branch_version s u name <> Hang.
 Proof.
   intros I. unfold get_branch_version. apply obind_no_hang.
   - destruct (String.eqb u ""); [|apply of_opt_no_hang].
@@ -2194,11 +2319,11 @@ Lemma matching_no_hang s x : RepoInv s -> matching s x <> Hang.
 Proof.
   intros I. unfold matching.
   assert (P : forall p b, match prefix_matches s p with
-                          | [(u, _)] => if String.eqb b "" then Done u else get_branch_version (ur_pick x) s u b
+                          | [(u, _)] => if String.eqb b "" then Done u else get_branch_version s u b
                           | _ => Fail end <> Hang).
   { intros p b. destruct (prefix_matches s p) as [|[u v] [|]]; try discriminate.
     destruct (String.eqb b ""); [discriminate|now apply gbv_no_hang]. }
-  destruct (split_on ":" (ur_str x)) as [|a [|b [|]]]; try discriminate; auto.
+  destruct (split_on ":" x) as [|a [|b [|]]]; try discriminate; auto.
   destruct (String.eqb a ""); auto. now apply gbv_no_hang.
 Qed.
 
@@ -2338,16 +2463,18 @@ Definition c02dag : list req :=
   [RNewRepo None "" u1; RCommit (U u1); RNewVersion (U u1) "" u2; RCommit (U u2);
    RBranch (U u1) "side" "" u3; RCommit (U u3); RNewVersion (U u2) "" u4].
 
-(* a second newversion on V is refused; the merge [V, W] is accepted and its node (branch "") is a
-   second child of V on branch ""; newversion on V stays refused; root:master still names U, but
-   root:master~0 -- resolved through a loop over a Go map -- is U, the merge node, or an error,
-   depending on the iteration order *)
+(* a second newversion on V is refused; the merge [V, W] is accepted and its node (branch "", i.e. the
+   default branch) is a second child of V on that branch; newversion on V stays refused.  The head of
+   the default branch is its newest node: U before the merge, the merge node after it, and
+   root:master, root:master~0, root:master~1 are the same function of the DAG on every call *)
 Lemma master_after_merge_example :
   let s0 := run repaired init c02dag in
   let s1 := fst (step repaired s0 (RMerge (U u2) true [U u2; U u3] u5)) in
   snd (step repaired s0 (RNewVersion (U u2) "" u5)) = Fail /\
   snd (step repaired s0 (RMerge (U u2) true [U u2; U u3] u5)) = Done u5 /\
   snd (step repaired s1 (RNewVersion (U u2) "" u6)) = Fail /\
-  matching s1 (U (u1 ++ ":master")) = Done u4 /\
-  List.map (fun p => matching s1 (mkUref (u1 ++ ":master~0") p)) [0; 1; 3]%nat = [Fail; Done u5; Done u4].
-Proof. vm_compute. auto. Qed.
+  matching s0 (U (u1 ++ ":master")) = Done u4 /\
+  matching s1 (U (u1 ++ ":master")) = Done u5 /\
+  matching s1 (U (u1 ++ ":master~0")) = Done u5 /\
+  matching s1 (U (u1 ++ ":master~1")) = Done u2.
+Proof. vm_compute. repeat split. Qed.
